@@ -160,7 +160,7 @@ fn decoder_part(c: &mut Ctx) {
             for i in 0..per {
                 let base = enc(&zk::internal::test_new_revocation_pair(&mut rng));
                 let mut b = base.clone();
-                let kind = match i % 8 {
+                let kind = match i % 9 {
                     0 => "honest",
                     1 => {
                         b[..32].copy_from_slice(&Scalar::random(&mut rng).to_bytes());
@@ -210,6 +210,38 @@ fn decoder_part(c: &mut Ctx) {
                         b[32..64].copy_from_slice(&secret);
                         b[64] = idx;
                         "reference-pair-any-index"
+                    }
+                    7 => {
+                        // a digest just above the modulus: its top byte equals the modulus' top byte, so
+                        // only an exact comparison refuses it; the reduced value is offered as lock
+                        let mut secret;
+                        let mut idx;
+                        let digest;
+                        loop {
+                            secret = Scalar::random(&mut rng).to_bytes();
+                            idx = (rng.next_u32() % 256) as u8;
+                            use sha3::{Digest, Sha3_256};
+                            let mut h = Sha3_256::new();
+                            h.update(secret);
+                            h.update([idx]);
+                            let d = h.finalize();
+                            if d[31] == crate::wire::Q_LE[31] && revlock_ref(&secret, idx).is_none() {
+                                digest = d;
+                                break;
+                            }
+                        }
+                        // digest mod q, computed by subtracting q once (digest < 2q here)
+                        let mut red = [0u8; 32];
+                        let mut borrow = 0i16;
+                        for k in 0..32 {
+                            let x = digest[k] as i16 - crate::wire::Q_LE[k] as i16 - borrow;
+                            red[k] = x.rem_euclid(256) as u8;
+                            borrow = if x < 0 { 1 } else { 0 };
+                        }
+                        b[..32].copy_from_slice(&red);
+                        b[32..64].copy_from_slice(&secret);
+                        b[64] = idx;
+                        "digest-just-above-modulus"
                     }
                     _ => {
                         // lock and secret exchanged
@@ -297,6 +329,94 @@ pub fn run(c: &mut Ctx) {
         });
     }
     decoder_part(c);
+    // generated pairs under crafted randomness: the secret is chosen so that its digest at index 0 is
+    // not a canonical scalar (in particular just above the modulus); the generator must move on to
+    // another index and the pair it returns must satisfy lock = SHA3(secret || index)
+    c.case("generate/crafted-secrets", |c| {
+        use crate::srng::ScriptRng;
+        let mut rng = c.rng("generate/crafted-secrets");
+        let mut band = 0;
+        for k in 0..c.tier.pick(40, 400) {
+            let want_band = k % 2 == 0;
+            let secret = loop {
+                let s = Scalar::random(&mut rng).to_bytes();
+                if revlock_ref(&s, 0).is_some() {
+                    continue;
+                }
+                if want_band {
+                    use sha3::{Digest, Sha3_256};
+                    let mut h = Sha3_256::new();
+                    h.update(s);
+                    h.update([0u8]);
+                    if h.finalize()[31] != crate::wire::Q_LE[31] {
+                        continue;
+                    }
+                }
+                break s;
+            };
+            if want_band {
+                band += 1;
+            }
+            let mut pat = secret.to_vec();
+            pat.extend_from_slice(&[0u8; 32]);
+            let mut r = ScriptRng::new([k as u8; 32]);
+            r.inject(0, pat);
+            c.eval();
+            c.distinct(&format!("generate/{}", hex(&secret[..8])));
+            let pair = zk::internal::test_new_revocation_pair(&mut r);
+            if r.consumed != 1 {
+                c.inconclusive("C05: crafted secret not consumed by the generator");
+                continue;
+            }
+            let sec = pair.revocation_secret().as_bytes();
+            let ok = sec[..32] == secret[..] && revlock_ref(&sec[..32], sec[32]).map(|l| l.to_bytes() == pair.revocation_lock().as_bytes()).unwrap_or(false);
+            if !ok {
+                c.violation(
+                    &format!("C05 generated-pair-lock-is-not-hash digest-class={}", if want_band { "just-above-modulus" } else { "not-canonical" }),
+                    json!({"secret": hex(&secret), "index": sec[32], "lock": hex(&pair.revocation_lock().as_bytes())}),
+                );
+            } else {
+                c.count("crafted_generations_ok", 1);
+            }
+        }
+        c.count("crafted_generations_in_band", band);
+    });
+    // a hostile customer who commits to a throw-away pair's lock instead of the old state's: if the
+    // merchant approves, completion succeeds without the old state ever being revoked
+    for k in 0..c.tier.pick(2usize, 12) {
+        let name = format!("forger/committed-lock-foreign/{}", k);
+        c.case(&name, |c| {
+            use crate::props::c02;
+            let mut rng = c.rng(&name);
+            let template = match c02::pay_template(m, c.seed) {
+                Ok(t) => t,
+                Err(e) => return c.inconclusive(&e),
+            };
+            let hist: Vec<i64> = if k % 2 == 0 { vec![] } else { vec![5, -2] };
+            let b = match c02::make_base(m, &mut rng, 500 + k as u64, 40, &hist, &template) {
+                Ok(b) => b,
+                Err(e) => return c.inconclusive(&e),
+            };
+            let j = c02::PayJudge { b: &b, context: b"c05-forger".to_vec(), prop: "C05", accepted_nonces: Default::default() };
+            let amt = 7i64;
+            // positive control
+            let tp = c02::true_plan(&b, &mut rng, amt);
+            let pr = crate::shadow::PayProver::commit(&mut rng, m, &tp.w);
+            let Some((_, c0)) = j.submit(c, &mut rng, "draft", &pr, None, &Scalar::zero(), &tp, &tp.nonce_pub, amt) else { return };
+            match j.submit(c, &mut rng, "control/true-statement", &pr, Some(&pr.responses(&c0)), &c0, &tp, &tp.nonce_pub, amt) {
+                Some((true, _)) => c.count("forger_positive_controls", 1),
+                _ => return c.inconclusive("C05: forger positive control rejected"),
+            }
+            for p in c02::false_plans(&b, &mut rng, amt, m2).into_iter().filter(|p| p.name.starts_with("committed-lock")) {
+                c.distinct(&format!("forger/{}/{}", p.name, k));
+                let pr = crate::shadow::PayProver::commit(&mut rng, m, &p.w);
+                if let Some((_, c0)) = j.submit(c, &mut rng, "draft", &pr, None, &Scalar::zero(), &p, &p.nonce_pub, amt) {
+                    let _ = j.submit(c, &mut rng, &format!("strategy=honest-but-lying variant={}", p.name), &pr, Some(&pr.responses(&c0)), &c0, &p, &p.nonce_pub, amt);
+                    c.count("forger_attempts", 1);
+                }
+            }
+        });
+    }
     let _ = |r: &mut dyn RngCore| r.next_u32();
     fn _assert<T: CryptoRng>() {}
 }
